@@ -742,6 +742,7 @@ def run(tier):
     _c11.decode_mod_covers_source(chk)
     from . import c10 as _c10
     oblig.run_obligations(chk, _c10.signature_wrapper_obligations())
+    _c10.pkcs1_v15_template(chk)      # certificate signatures: exact EMSA-PKCS1-v1_5 template
     from .c03 import hash_compare_shape
     hash_compare_shape(chk, S, 'verify_signature', 'x509-signature-hash-compare')
     chk.floor('rule instances', len(chk.obls), 35)
